@@ -283,8 +283,16 @@ def run_shard(ctx, spec):
         # the two placements of a version string agree
         for rel, lab, num in mine[: (5 if spec.get('guard_off') else 30)]:
             s = mk(rel, lab, num)
-            if convert(s, "current") != convert(s, "parameter"):
-                acc.fail("placement", {"s": s}, f"{s!r}: suit-current-version gives {convert(s, 'current')}, suit-parameter-version {convert(s, 'parameter')}", "same list")
+            try:
+                cur, par = convert(s, "current"), convert(s, "parameter")
+            except (Violation, boot.HarnessError):
+                raise
+            except Exception as e:
+                if not any(f["bucket"] == "supported-rejected" for f in acc.failures):
+                    acc.fail("placement", {"s": s}, f"supported version string {s!r} rejected: {type(e).__name__}: {str(e)[:150]}", "integer list", bucket="supported-rejected")
+                continue
+            if cur != par:
+                acc.fail("placement", {"s": s}, f"{s!r}: suit-current-version gives {cur}, suit-parameter-version {par}", "same list")
     elif kind == "reject":
         for s in BAD:
             acc.case(nt_key=("bad", s), classes=["unsupported-label"], sample={"unsupported": s}, sample_key="bad")
@@ -299,9 +307,10 @@ def run_shard(ctx, spec):
             acc.fail("reject", {"s": s}, f"unsupported version string {s!r} accepted as {out}", "rejection", bucket=f"accepted:{s}")
     else:
         tw = [None, 0, 1, 255]
-        tuples = [(a, b, c, t) for a in (0, 1, 127) for b in (0, 1, 255) for c in (0, 1, 255) for t in tw]
+        # minor/patch/tweak below 256 as the property demands; the major number is not bounded by the statement
+        tuples = [(a, b, c, t) for a in (0, 1, 127, 255, 256, 257, 1000) for b in (0, 1, 255) for c in (0, 1, 255) for t in tw]
         rnd = random.Random(ctx.seed)
-        tuples += [(rnd.randrange(128), rnd.randrange(256), rnd.randrange(256), rnd.choice([None, rnd.randrange(256)])) for _ in range(300 if not ctx.thorough else 5000)]
+        tuples += [(rnd.choice([rnd.randrange(128), rnd.randrange(128), rnd.randrange(100000)]), rnd.randrange(256), rnd.randrange(256), rnd.choice([None, rnd.randrange(256)])) for _ in range(300 if not ctx.thorough else 5000)]
         try:
             judge_tuples(tuples, EXTRAS_OK(), acc, ctx)
         except Violation as v:
@@ -320,10 +329,13 @@ def replay(ctx, check, case):
             judge_pair(case["a"], case["b"], acc)
         elif "s" in case:
             try:
-                convert(case["s"])
-                return [f"{case['s']!r} accepted"] if check == "reject" else []
-            except Exception:
-                return []
+                cur = convert(case["s"])
+            except Exception as e:
+                return [] if check == "reject" else [f"{case['s']!r} rejected: {type(e).__name__}: {e}"]
+            if check == "reject":
+                return [f"{case['s']!r} accepted"]
+            par = convert(case["s"], "parameter")
+            return [] if cur == par else [f"{case['s']!r}: {cur} vs {par}"]
         else:
             judge_tuples([(0, 0, 0, None), (0, 0, 1, 0), (0, 1, 0, 255), (1, 0, 0, 0), (1, 2, 3, 4)], EXTRAS, acc, ctx)
     except Violation as v:
